@@ -78,3 +78,8 @@ Definition eid_eqb (a b : eid) : bool := Nat.eqb (fst a) (fst b) && N.eqb (snd a
 (** Generations are [u64] with [wrapping_add]. *)
 Definition gen_modulus : N := 18446744073709551616%N.
 Definition gen_next (g : N) : N := ((g + 1) mod gen_modulus)%N.
+
+(** Identifier bytes of a shape: bit k of the registry is bit (k mod 8) of byte (k / 8). *)
+Definition bytes_of_shape (sh : shape) : list N :=
+  map (fun j => fold_right (fun i acc => (if nth (8 * j + i) sh false then N.shiftl 1 (N.of_nat i) else 0) + acc)%N 0%N (seq 0 8))
+      (seq 0 ((length sh + 7) / 8)).
